@@ -331,6 +331,10 @@ P_SWEEP = [P("no_swallow_sweep_%d" % i, "sweep shard %d/8 over every function of
 P_HANDBACK = P("handback_intact", "try_commit_nonblocking (session, overlay): on every path to `Ok(Some(self))` each field moved out of / mutably "
                "borrowed from self has been assigned back", P_BOUNDS, assumes=[ASSUME_P])
 P_LOCKFILE = P("lock_file_permanent", "store/flock.rs (Flock::lock, Drop for Flock): no call removes, renames or truncates the lock file", P_BOUNDS, assumes=[ASSUME_P])
+P_CREATE = P("create_durable", "store::create fsyncs the directory after the last file creation before Ok; bitbox::create / beatree::create fsync every "
+             "file they create / size before Ok", P_BOUNDS, assumes=[ASSUME_P])
+P_FSYNCER = P("fsyncer_order", "io::fsyncer::worker: request observed -> fsync -> Done in every round; recover passes do_sync = true to truncate_wal; "
+              "truncate_wal honours do_sync", P_BOUNDS, assumes=[ASSUME_P])
 P_DIR_LOCK = P("dir_lock_first", "store::create / Store::open: Flock::lock returned Ok before any database file is created, opened, read or "
                "written, before the I/O pool starts, and on every Ok return", P_BOUNDS, assumes=[ASSUME_P])
 P_FLOCK_RESULT = P("flock_result", "Flock::lock: Ok(Flock) only on the success arm of try_lock_exclusive; no fallible value dropped", P_BOUNDS, assumes=[ASSUME_P])
@@ -468,7 +472,7 @@ PROPERTIES = {
                            "orchestration - the order in which durable effects are issued relative to the single switch-over (Meta::write).",
             "outside": ["that the bytes reachable from the old/new meta decode to the old/new state", "beatree / rollback controllers' "
                         "internals, rollback-in-progress crashes, Store::open order", "thread interleavings of the spawned tasks"]},
-    "C04": {"level": "model_checking", "obligations": [P_RECOVER_FSYNC, P_WRITEOUT_FSYNC, P_SYNC_ORDER, P_PRE_META, P_BEATREE_SYNC, P_SEGLOG_APPEND],
+    "C04": {"level": "model_checking", "obligations": [P_RECOVER_FSYNC, P_WRITEOUT_FSYNC, P_SYNC_ORDER, P_PRE_META, P_BEATREE_SYNC, P_SEGLOG_APPEND, P_CREATE, P_FSYNCER],
             "explanation": "Protocol order: every write the new state depends on is covered by a completed fsync before the function that "
                            "issued it reports success / before the redo log is discarded; decided by z3 over the MIR event structure; a "
                            "counterexample is replayed as a syscall trace (strace) of a real crash-recovery run.",
